@@ -97,4 +97,32 @@ theorem inv_step (d : Dec) (data : Bytes) (h : d.Inv) (hw : ∀ x ∈ data, x < 
 theorem inv_buffer_bounded (d : Dec) (h : d.Inv) : d.buffer.length ≤ maxIn :=
   fullInv_buffer_bounded d h
 
+/-- **6.4 framing**: the encoded reply is 40 header bytes followed by the payload, verbatim and
+complete, and its length field counts exactly what follows it - so a reader that trusts the length
+field finds the next reply's length field right behind the payload, for every payload size -/
+theorem encode_out_framed (s d : Ip.Sock) (p : Bytes) :
+    (encodeOut s d p).length = 4 + (36 + p.length) ∧ (encodeOut s d p).drop 40 = p ∧
+    (encodeOut s d p).take 4 = u32be ((encodeOut s d p).length - 4) := by
+  have hs := putFixedIp_length s.ip
+  have hd := putFixedIp_length d.ip
+  have hlen : (encodeOut s d p).length = 4 + (36 + p.length) := by
+    simp [encodeOut, u32be, u16be, hs, hd]; omega
+  refine ⟨hlen, ?_, ?_⟩
+  · have : encodeOut s d p =
+        (u32be (36 + p.length) ++ putFixedIp s.ip ++ u16be s.port ++ putFixedIp d.ip ++ u16be d.port) ++ p := rfl
+    rw [this, List.drop_left' (by simp [u32be, u16be, hs, hd])]
+  · rw [hlen]
+    simp [encodeOut, u32be]
+
+/-- consecutive replies on one stream: dropping the first reply's declared length leaves exactly the
+second reply -/
+theorem encode_out_concat (s d s' d' : Ip.Sock) (p p' : Bytes) :
+    (encodeOut s d p ++ encodeOut s' d' p').drop (4 + (36 + p.length)) = encodeOut s' d' p' := by
+  rw [← (encode_out_framed s d p).1]
+  exact List.drop_left
+
+example : encodeOut ⟨.v4 1 2 3 4, 53⟩ ⟨.v4 10 0 0 1, 40000⟩ [7, 8] =
+    [0, 0, 0, 38, 0, 0, 0, 0, 0, 0, 0, 0, 0, 0, 0, 0, 1, 2, 3, 4, 0, 53, 0, 0, 0, 0, 0, 0, 0, 0, 0, 0, 0, 0, 10, 0, 0, 1, 156, 64, 7, 8] := by
+  decide
+
 end TT.Udp
